@@ -131,6 +131,16 @@ def build(ctx):
                     if ctx.quick:
                         plc = {"top", "cb:map", "eval"} if wn != "bare" else plc
                     add(cn + "/" + un, use, plc, wn, w, D, None)
+    # loops whose body works on receivers of many sizes (any per-call step weighting, batching or poll cadence that depends on operand
+    # size must still let the clock be polled): 30 lengths x string / array receivers x a few methods
+    for L in range(100, 3100, 100):
+        for rn, mk, call in (("string", "var big = 'x'.repeat(%d);" % L, "big.indexOf('q');"), ("string-slice", "var big = 'x'.repeat(%d);" % L, "big.slice(1, 3); big.charAt(2);"),
+                             ("array", "var big = new Array(%d); big[0] = 1;" % L, "big.indexOf(7);"), ("array-slice-join", "var big = new Array(%d);" % L, "big.slice(0, 2).join();")):
+            if ctx.quick and (L // 100 + len(rn)) % 2:
+                continue
+            core = mk + " while (true) { " + call + " }"
+            add("big-receiver-%s/%d" % (rn, L), core, {"top", "function", "cb:forEach"} if not ctx.quick else {"top", "cb:forEach"}, "bare", wraps[0][1], Ds[1], None)
+            add("big-receiver-%s/%d" % (rn, L), core, {"getter"}, "try-catch-finally", dict(wraps)["try-catch-finally"], Ds[1], 1000000)
     # chains of nested eval / new Function levels each burning part of the budget
     for k in (1, 2, 3, 5, 8):
         for D in Ds:
